@@ -514,7 +514,30 @@ fn typed_use(a: &mut Asm, r: &mut Rng, scratch_slot: U256) {
 /// One storage fragment on slot `s`; stack-neutral.
 fn storage_fragment(a: &mut Asm, r: &mut Rng, s: U256, slots: &[U256]) {
     let other = *r.pick(slots);
-    match r.below(28) {
+    match r.below(29) {
+        28 => {
+            // one struct-valued mapping reached at two (or three) of its
+            // members under the same key; the member offsets are constants in
+            // the bytecode, so now and then absurd ones
+            let n = if r.chance(1, 4) { 3 } else { 2 };
+            for _ in 0..n {
+                typed_value(a, r);
+                a.push(s).push_u(0x20).op(op::MSTORE);
+                a.op(op::CALLER).op(op::PUSH0).op(op::MSTORE);
+                a.push_u(0x40).op(op::PUSH0).op(op::SHA3);
+                let member: U256 = match r.below(8) {
+                    0 => (U256::ONE << 56) - U256::from(1 + r.below(2)),
+                    1 => U256::from(u32::MAX) + U256::from(r.below(2)),
+                    2 => (U256::ONE << 24) - U256::ONE,
+                    3 => boundary_constant(r),
+                    _ => U256::from(r.below(4)),
+                };
+                if member != U256::ZERO {
+                    a.push(member).op(op::ADD);
+                }
+                a.op(op::SSTORE);
+            }
+        }
         26 => {
             // a comparison result kept in a slot and also used as a number
             // (or a number also used as a condition): two rules type the one
@@ -1116,6 +1139,102 @@ pub fn gen_cfg(r: &mut Rng) -> Vec<u8> {
 // limit, culling, memoised sizes, deep trees)
 // ---------------------------------------------------------------------------
 
+/// The ten places a grown value is put to use (`which` in 0..10).
+pub const GROWTH_USES: u64 = 10;
+fn growth_use(a: &mut Asm, r: &mut Rng, which: u64) {
+    match which {
+        5 => {
+            // as the offset of a load
+            a.op(op::MLOAD).push_u(r.below(4) as u128).op(op::SSTORE);
+        }
+        6 => {
+            // as a copy size or offset
+            if r.chance(1, 2) {
+                a.op(op::PUSH0).op(op::PUSH0).op(op::CALLDATACOPY);
+            } else {
+                a.push_u(0x40).swap(1).op(op::PUSH0).op(op::CALLDATACOPY);
+            }
+        }
+        7 => {
+            // masked (on either side) and stored
+            if r.chance(1, 2) {
+                a.push(mask(160)).op(op::AND);
+            } else {
+                a.push(mask(160)).swap(1).op(op::AND);
+            }
+            a.push_u(r.below(4) as u128).op(op::SSTORE);
+        }
+        8 => {
+            // scaled and stored
+            a.push_u(0x100).op(op::MUL).push_u(r.below(4) as u128).op(op::SSTORE);
+        }
+        9 => {
+            // as a jump target
+            a.op(op::JUMP);
+        }
+        0 => {
+            a.push_u(r.below(4) as u128).op(op::SSTORE);
+        }
+        1 => {
+            // as a storage key
+            a.op(op::CALLER).swap(1).op(op::SSTORE);
+        }
+        2 => {
+            // as a memory offset, then hashed into a slot
+            a.op(op::CALLER).swap(1).op(op::MSTORE);
+        }
+        3 => {
+            a.push_u(r.below(4) as u128);
+            mapping_hash(a, r);
+            a.op(op::SSTORE);
+        }
+        _ => {
+            a.op(op::POP);
+        }
+    }
+}
+
+/// All one-opcode chains: 21 two-operand, 2 three-operand and 11 one-operand
+/// opcodes, each applied to its own result 36-65 times starting from a
+/// non-constant value, each ending in every one of the ten uses. `k` picks the
+/// combination; a check that spends its first `GROWTH_COMBOS` cases on
+/// `k = case index` covers all of them once, whatever the seed.
+pub const GROWTH_COMBOS: u64 = 34 * GROWTH_USES;
+pub fn gen_growth_combo(k: u64, r: &mut Rng) -> Vec<u8> {
+    const BINARY: [u8; 21] = [
+        op::ADD, op::MUL, op::SUB, op::DIV, op::SDIV, op::MOD, op::SMOD, op::EXP, op::SIGNEXTEND, op::LT, op::GT,
+        op::SLT, op::SGT, op::EQ, op::AND, op::OR, op::XOR, op::BYTE, op::SHL, op::SHR, op::SAR,
+    ];
+    const TERNARY: [u8; 2] = [op::ADDMOD, op::MULMOD];
+    const UNARY: [u8; 11] = [op::ISZERO, op::NOT, op::SLOAD, op::MLOAD, op::CALLDATALOAD, op::BALANCE, op::EXTCODEHASH, op::EXTCODESIZE, op::BLOCKHASH, op::CALLER, op::POP];
+    let which_op = (k % 34) as usize;
+    let which_use = (k / 34) % GROWTH_USES;
+    let mut a = Asm::new();
+    if r.chance(1, 2) {
+        a.op(op::CALLER);
+    } else {
+        a.push_u(4).op(op::CALLDATALOAD);
+    }
+    let n = 36 + r.usize_below(30);
+    for _ in 0..n {
+        if which_op < 21 {
+            a.dup(1).op(BINARY[which_op]);
+        } else if which_op < 23 {
+            a.dup(1).dup(1).op(TERNARY[which_op - 21]);
+        } else if which_op < 32 {
+            a.op(UNARY[which_op - 23]);
+        } else {
+            // the last two "unary" slots: a loop-free stand-in for a flag run
+            // through ISZERO / NOT in alternation
+            a.op(if which_op == 32 { op::ISZERO } else { op::NOT });
+            a.op(if which_op == 32 { op::NOT } else { op::ISZERO });
+        }
+    }
+    growth_use(&mut a, r, which_use);
+    a.op(op::STOP);
+    a.finish()
+}
+
 /// W-nesting: types nested dozens of levels deep, each level mentioning the
 /// next one once or twice: slot i holds a mapping whose key and value are both
 /// "whatever slot i+1 holds" (or a mapping to it, or a dynamic array of it).
@@ -1248,56 +1367,8 @@ pub fn gen_growth(r: &mut Rng) -> Vec<u8> {
         }
     }
     // Use the result somewhere it matters.
-    match r.below(10) {
-        5 => {
-            // as the offset of a load
-            a.op(op::MLOAD).push_u(r.below(4) as u128).op(op::SSTORE);
-        }
-        6 => {
-            // as a copy size or offset
-            if r.chance(1, 2) {
-                a.op(op::PUSH0).op(op::PUSH0).op(op::CALLDATACOPY);
-            } else {
-                a.push_u(0x40).swap(1).op(op::PUSH0).op(op::CALLDATACOPY);
-            }
-        }
-        7 => {
-            // masked (on either side) and stored
-            if r.chance(1, 2) {
-                a.push(mask(160)).op(op::AND);
-            } else {
-                a.push(mask(160)).swap(1).op(op::AND);
-            }
-            a.push_u(r.below(4) as u128).op(op::SSTORE);
-        }
-        8 => {
-            // scaled and stored
-            a.push_u(0x100).op(op::MUL).push_u(r.below(4) as u128).op(op::SSTORE);
-        }
-        9 => {
-            // as a jump target
-            a.op(op::JUMP);
-        }
-        0 => {
-            a.push_u(r.below(4) as u128).op(op::SSTORE);
-        }
-        1 => {
-            // as a storage key
-            a.op(op::CALLER).swap(1).op(op::SSTORE);
-        }
-        2 => {
-            // as a memory offset, then hashed into a slot
-            a.op(op::CALLER).swap(1).op(op::MSTORE);
-        }
-        3 => {
-            a.push_u(r.below(4) as u128);
-            mapping_hash(&mut a, r);
-            a.op(op::SSTORE);
-        }
-        _ => {
-            a.op(op::POP);
-        }
-    }
+    let which = r.below(GROWTH_USES);
+    growth_use(&mut a, r, which);
     a.op(op::STOP);
     a.finish()
 }
